@@ -186,7 +186,7 @@ func cwInv(cw *CodeWriter) bool {
 //@   modifies cw.Mapper.generatedLine, cw.Mapper.generatedColumn, cw.Mapper.mappings, cw.Mapper.names, cw.Mapper.nameIndex[*]
 //@   ensures [cwinv@C06,C08] cwInv(cw)
 //@   ensures [J@C08] J(cw)
-//@   ensures [no-fusion@C03,C01] NoFusion(cw)
+//@   ensures [no-fusion@C03,C01,C14] NoFusion(cw)
 
 // Layout-only methods write nothing and record no mapping.
 //@ group layoutOnly
@@ -198,7 +198,7 @@ func cwInv(cw *CodeWriter) bool {
 //@ func (cw *CodeWriter) emit(s)
 //@   props C08 C06 C15 C11
 //@   use cwFrame
-//@   ensures [mechanism@C08] fullSeq(evOpt(len(s) > 0, evCall("(*CodeWriter).separateSigns")), evOpt(len(s) > 0 && cw.Mapper != nil, evCall("(*SourceMapper).AdvanceString"))) && implies(len(s) > 0 && cw.Mapper != nil, callArg[string]("(*SourceMapper).AdvanceString", 0, 1) == s)
+//@   ensures [mechanism@C08,C14] fullSeq(evOpt(len(s) > 0, evCall("(*CodeWriter).separateSigns")), evOpt(len(s) > 0 && cw.Mapper != nil, evCall("(*SourceMapper).AdvanceString"))) && implies(len(s) > 0 && cw.Mapper != nil, callArg[string]("(*SourceMapper).AdvanceString", 0, 1) == s)
 //@   ensures [pendings] eq(cw.pendings, old(cw.pendings)) && cw.IndentLevel == old(cw.IndentLevel)
 //@   ensures [no-mapping@C08] cw.Mapper == nil || sourcemap.NumMappings(cw.Mapper) == old(sourcemap.NumMappings(cw.Mapper))
 //@   ensures [written@C06] implies(len(s) > 0, !cw.semiOmitted) && implies(len(s) == 0, cw.semiOmitted == old(cw.semiOmitted))
@@ -210,7 +210,7 @@ func cwInv(cw *CodeWriter) bool {
 //@   modifies cw.Builder, cw.lastByte, cw.Mapper.generatedColumn
 //@   ensures [cwinv] cwInv(cw)
 //@   ensures [J@C08] J(cw)
-//@   ensures [no-fusion@C03,C01] NoFusion(cw)
+//@   ensures [no-fusion@C03,C01,C14] NoFusion(cw)
 //@   ensures [separated@C03,C01] !((next == '+' || next == '-') && cw.lastByte == next)
 //@   ensures [only-then@C06] implies(!((next == '+' || next == '-') && old(cw.lastByte) == next), eq(cw.Builder, old(cw.Builder)) && cw.lastByte == old(cw.lastByte))
 //@   ensures [no-mapping@C08] cw.Mapper == nil || sourcemap.NumMappings(cw.Mapper) == old(sourcemap.NumMappings(cw.Mapper))
